@@ -99,6 +99,18 @@ CHECKS = {
        "TLC replays the completed system calls through the writer actions (so the model of SQLite is validated against real SQLite), requires SqliteRecovered = what SQLite really recovered, judges C09 on the recorded outcomes and compares them with the model's reader rule.",
   note=NOTE + "crash = process death (completed writes persist in order); no power-loss reordering; journal modes MEMORY/OFF/WAL out of scope; LD_PRELOAD must see all file operations (unexplained call sequences fail the run with exit 2)",
   design="6 C09, 3.7", category="model_checking"),
+ "C10": dict(
+  technique="TLA+ spec Schema.tla (SQLite's CREATE TABLE/INDEX interpretation rules) validated against SQLite's PRAGMAs; generated ASTs rendered to text, stored by real SQLite, sqlittle's Schema judged by TLC (TraceSchema.tla)",
+  text="Schema.tla transcribes build.c's rules: rowid alias (single INTEGER column, table-level or not DESC), automatic index per PRIMARY KEY/UNIQUE unless an earlier constraint index has the same columns and collations (sort order not compared), numbering sqlite_autoindex_<t>_<n>, collation inheritance, the deferred primary-key index of WITHOUT ROWID tables with an INTEGER key, primary key landing on an existing index. "
+       "Seeded ASTs (<=4 columns, all constraint kinds in shuffled textual order, deliberate near-duplicate constraints, WITHOUT ROWID, CREATE [UNIQUE] INDEX incl. partial, non-ASCII identifiers) are rendered in many spellings and executed by real SQLite; TLC requires Interpret(ast) = SQLite's own PRAGMA view (else exit 2) and that sqlittle's Schema is an error or agrees on columns, WITHOUT ROWID, rowid alias, primary key and every index it reports (name -> columns, collations, directions).",
+  note=NOTE + "small-scope, seeded (1500 quick / 20000 thorough definitions); expression indexes and generated columns not generated; the type test 'is exactly INTEGER' is evaluated by the generator (TLA+ has no string case folding)",
+  design="6 C10, 3.8"),
+ "C16": dict(
+  technique="TLA+ spec Schema.tla (per-element report predicates) + TraceParse.tla; trace validation of parser results on SQLite-accepted statements and on hostile strings by TLC",
+  text="Locality: for every element (column with its constraint sequence, table constraint, indexed column) of C10's AST corpus -- each element appears with many different neighbours, orders and spellings, all accepted and stored by real SQLite -- TLC requires the parser's report to equal the generating AST element (ColumnReportOK, IndexedColsOK). "
+       "Totality/determinism: all lexeme sequences of length 1-2 over a 52-lexeme hostile alphabet (unterminated quotes, multi-byte letters, 1e, 0x, 20-digit numbers, NUL), seeded longer ones, every byte prefix and seeded byte mutations of stored statements are parsed twice in one process in opposite call order and once in a fresh process; TLC requires no panic, no hang, three identical answers.",
+  note=NOTE + "strings are sampled, not all strings; a result returned together with an error is not judged",
+  design="6 C16, 3.8"),
 }
 
 NOT_YET = "check not built yet (work in progress; see DESIGN.md section 9 order of work)"
